@@ -322,13 +322,23 @@ def fuzz_cuts_campaign(tier, seed, shard, n_shards, n_runs):
     from framework import core
 
     root = Path(core.ROOT)
+    out = {"evaluations": 0, "nontrivial": [], "classes": {}, "samples": [], "violation": None, "harness": None}
+    probe = subprocess.run([sys.executable, "-c", "import sys; sys.path.insert(0, sys.argv[1]); import atheris", str(root / ".deps")],
+                           capture_output=True)
+    if probe.returncode != 0:
+        subprocess.run([sys.executable, "-m", "pip", "install", "--no-index", "--find-links", "/opt/veriftools/wheels",
+                        "--target", str(root / ".deps"), "atheris"], capture_output=True)
+        probe = subprocess.run([sys.executable, "-c", "import sys; sys.path.insert(0, sys.argv[1]); import atheris", str(root / ".deps")],
+                               capture_output=True)
+        if probe.returncode != 0:
+            out["classes"] = {"atheris_unavailable(facet_skipped)": 1}
+            return out
     work = Path(tempfile.mkdtemp(prefix="fuzzcuts_"))
     stats = work / "stats.json"
     found = Path(core.OUT) / "replays" / "found"
     cmd = [sys.executable, str(root / "fuzz" / "fuzz_cuts.py"), str(stats), str(found), f"-runs={n_runs}", f"-seed={seed}",
            "-max_len=96", "-timeout=30", "-verbosity=0", "-print_final_stats=0"]
     r = subprocess.run(cmd, cwd=str(work), capture_output=True, text=True)
-    out = {"evaluations": 0, "nontrivial": [], "classes": {}, "samples": [], "violation": None, "harness": None}
     try:
         d = json.loads(stats.read_text())
         out.update(evaluations=d["evaluations"], nontrivial=d["nontrivial"], classes=d["classes"], samples=d["samples"][:2])
